@@ -27,7 +27,10 @@ static letter LT[64]; static int nlt;
 static struct sockaddr_storage REQ[NREQ]; static socklen_t RLENS[NREQ], RLEN;   /* requester C asks over IPv6 */
 static struct sockaddr_storage LOCALDNS;
 static const char *REQN[NREQ] = { "A", "B", "C(IPv6)", "D" };
-static const struct { const char *name; int type; } QN[2] = { { "www.other.org", 1 }, { "Mail.Foo-bar.net", 15 } };
+/* two ordinary names, a name of the maximal length (253 characters: the forwarded query with its EDNS0 record is as large
+ * as a query gets; seeded C20-i), and the root name (priming queries ask ". NS") */
+static char LONGNAME[260];
+static struct { const char *name; int type; } QN[4] = { { "www.other.org", 1 }, { "Mail.Foo-bar.net", 15 }, { LONGNAME, 1 }, { "", 2 } };
 
 static void addl(int kind, int r, int id, int v, const char *fmt, ...)
 {
@@ -78,7 +81,6 @@ static int apply(int li)
 		if (M.n >= MAXM) return 1;
 		plen = mk_fwd_query(pkt, L->id, L->v);
 		adv_send(&REQ[L->r], RLENS[L->r], pkt, plen);
-		M.e[M.n].r = L->r; M.e[M.n].id = L->id; M.n++;
 		/* exactly one datagram, to the local DNS port, same id / name / type */
 		int nf = 0;
 		for (int i = 0; i < adv_nout; i++) {
@@ -94,7 +96,10 @@ static int apply(int li)
 			} else if (o->dst.ss_family != 0)
 				viol("query-caused-other-output", "%s caused a %s to %s", L->name, o->kind == 3 ? "tun write" : "datagram", vw_addr_str(&o->dst));
 		}
-		if (nf != 1) viol("query-not-forwarded-once", "%s was forwarded %d times", L->name, nf);
+		if (nf != 1) viol(L->v == 3 && nf == 0 ? "root-name-query-not-forwarded" : "query-not-forwarded-once", "%s was forwarded %d times", L->name, nf);
+		/* the model remembers what was forwarded (a query the server dropped has been reported just above; replies bearing
+		 * its id are then judged like replies to a query never asked) */
+		if (nf >= 1) { M.e[M.n].r = L->r; M.e[M.n].id = L->id; M.n++; }
 		xp_outcome(0x100 + nf);
 	} else if (L->kind == L_R) {
 		plen = mk_reply(pkt, L->id);
@@ -204,6 +209,9 @@ int main(int argc, char **argv)
 	vw_mkaddr6(&REQ[2], &RLENS[2], "2001:db8::9", 4002); vw_mkaddr(&REQ[3], &RLENS[3], "198.51.100.10", 4003);
 	vw_mkaddr(&LOCALDNS, &RLEN, "127.0.0.1", BINDPORT);
 	for (int r = 0; r < 3; r++) for (int id = 0; id < 4; id++) addl(L_Q, r, id, (r + id) & 1, "Q(%s,id%d,%s)", REQN[r], id, QN[(r + id) & 1].name);
+	{ int n = 0; for (int l = 0; l < 4; l++) { int ll = l < 3 ? 63 : 61; memset(LONGNAME + n, 'a' + l, ll); n += ll; LONGNAME[n++] = l < 3 ? '.' : 0; } }   /* 63.63.63.61 = 253 characters */
+	addl(L_Q, 0, 1, 2, "Q(A,id1,253-character name)"); addl(L_Q, 2, 2, 2, "Q(C(IPv6),id2,253-character name)");
+	addl(L_Q, 1, 3, 3, "Q(B,id3,root name NS)");
 	for (int id = 0; id < 5; id++) addl(L_R, -1, id, 0, "R(id%d)", id);
 	addl(L_R, -1, 100, 0, "R(id100)"); addl(L_R, -1, 115, 0, "R(id115)");
 	/* replies that are only a header (REFUSED/FORMERR without the question: 12 bytes), and runts that do not even hold a header */
